@@ -6,8 +6,11 @@ mod brokerdrv;
 mod resprig;
 mod routerig;
 mod cluster;
+mod compressrig;
 mod sched;
 mod simnet;
+mod slotrig;
+mod wirerig;
 
 use std::collections::HashMap;
 use std::io::{BufWriter, Write};
@@ -153,6 +156,41 @@ fn cmd_routing_runs(m: &HashMap<String, String>) -> i32 {
     0
 }
 
+fn cmd_slot_cases(m: &HashMap<String, String>) -> i32 {
+    let out = m.get("out").expect("--out");
+    let f = std::fs::File::create(out).expect("create");
+    let mut w = BufWriter::new(f);
+    let rt = paused_rt();
+    rt.block_on(slotrig::run(
+        &mut w,
+        geti(m, "seed", 1u64),
+        geti(m, "layouts", 6usize),
+        geti(m, "maxlen", 5usize),
+        geti(m, "random-keys", 600usize),
+    ));
+    w.flush().ok();
+    0
+}
+
+fn cmd_wire_cases(m: &HashMap<String, String>) -> i32 {
+    let out = m.get("out").expect("--out");
+    let f = std::fs::File::create(out).expect("create");
+    let mut w = BufWriter::new(f);
+    wirerig::run(&mut w, geti(m, "count", 100u64), geti(m, "seed", 1u64));
+    w.flush().ok();
+    0
+}
+
+fn cmd_compress_cases(m: &HashMap<String, String>) -> i32 {
+    let out = m.get("out").expect("--out");
+    let f = std::fs::File::create(out).expect("create");
+    let mut w = BufWriter::new(f);
+    let rt = paused_rt();
+    rt.block_on(compressrig::run(&mut w, geti(m, "seed", 1u64), geti(m, "count", 100usize), m.contains_key("big")));
+    w.flush().ok();
+    0
+}
+
 fn main() {
     let args: Vec<String> = std::env::args().collect();
     if args.len() < 2 {
@@ -170,6 +208,9 @@ fn main() {
         "blocking-runs" => cmd_blocking_runs(&m),
         "resp-cases" => cmd_resp_cases(&m),
         "routing-runs" => cmd_routing_runs(&m),
+        "slot-cases" => cmd_slot_cases(&m),
+        "wire-cases" => cmd_wire_cases(&m),
+        "compress-cases" => cmd_compress_cases(&m),
         other => {
             eprintln!("unknown subcommand {}", other);
             2
